@@ -14,7 +14,7 @@ template <class G> void run_c02(vf::Report& R) {
   for (size_t i = 0; i < ts.size(); ++i) {
     if (!R.mine()) continue;
     const lat::TAtom& a = ts[i];
-    if (!R.args.replay.empty() && R.args.replay.find(a.key) == std::string::npos) continue;
+    if (!R.want(a.key)) continue;
     T t = vf::make_tan<T>(a.t);
     ref::Vec tl = vf::toL(t.coeffs());
     ++R.states;
